@@ -1,6 +1,7 @@
 package govc
 
 import (
+	"path/filepath"
 	"fmt"
 	"go/types"
 	"os"
@@ -35,6 +36,8 @@ type UnitResult struct {
 	CanaryUnknown int
 	CallVacuous   []string // call sites whose contract application makes a feasible path infeasible
 	CallProbesOK  int
+	DeadBlocks    []string // blocks reached only by paths whose quantifier-free path condition is already unsatisfiable
+	BlocksReached int
 }
 
 func (v *Verifier) newUnit(fn *ssa.Function, opts UnitOpts) *Unit {
@@ -280,6 +283,50 @@ func (v *Verifier) VerifyFunc(fn *ssa.Function, opts UnitOpts, so *SolveOpts) *U
 			}
 		}
 	}
+	if res.Refused == "" && len(u.BlockProbes) > 0 {
+		// block reachability: a block of the function all of whose recorded paths are infeasible even
+		// without their quantified hypotheses is either dead code or a sign that the encoding has
+		// contradicted itself (everything proved below it would be vacuous). Reported, not fatal.
+		bso := *so
+		bso.Timeout = 2 * time.Second
+		bso.FirstTry = 1 * time.Second
+		bso.WantModel = false
+		bso.BatchOnly = true
+		var idxs []int
+		for i := range u.BlockProbes {
+			idxs = append(idxs, i)
+		}
+		sort.Ints(idxs)
+		var probes []*Obligation
+		for _, i := range idxs {
+			for k, q := range u.BlockProbes[i] {
+				stripQuantified(q, "")
+				probes = append(probes, &Obligation{Name: fmt.Sprintf("block.%d.%d", i, k), Queries: []*Query{q}})
+			}
+		}
+		SolveAll(probes, u.W.Prelude(), &bso)
+		for _, i := range idxs {
+			dead := true
+			for _, q := range u.BlockProbes[i] {
+				if q.Result != "unsat" {
+					dead = false
+				}
+			}
+			if dead {
+				pos := ""
+				for _, in := range fn.Blocks[i].Instrs {
+					if in.Pos().IsValid() {
+						p := v.Prog.Fset.Position(in.Pos())
+						pos = fmt.Sprintf("%s:%d", filepath.Base(p.Filename), p.Line)
+						break
+					}
+				}
+				res.DeadBlocks = append(res.DeadBlocks, fmt.Sprintf("%s block %d (%s) %s", shortKey(fnKey(fn)), i, fn.Blocks[i].Comment, pos))
+			} else {
+				res.BlocksReached++
+			}
+		}
+	}
 	res.Obligations = obls
 	res.Seconds = time.Since(start).Seconds()
 	return res
@@ -295,6 +342,9 @@ func (r *UnitResult) Summary() string {
 	}
 	fmt.Fprintf(&sb, "%s: %d/%d obligations discharged, paths=%d rounds=%d cands=%d kept/%d dropped canaries ok=%d bad=%d unk=%d (%.1fs)",
 		shortKey(r.Key), ok, len(r.Obligations), r.Unit.Paths, r.Rounds, r.CandsKept, r.CandsDropped, r.CanaryOK, r.CanaryBad, r.CanaryUnknown, r.Seconds)
+	for _, k := range r.DeadBlocks {
+		fmt.Fprintf(&sb, "\n  DEAD-BLOCK: %s — every recorded path to it is infeasible", k)
+	}
 	for _, k := range r.CallVacuous {
 		fmt.Fprintf(&sb, "\n  VACUOUS CALL: %s — the callee's contract contradicts the caller's state (feasible before, infeasible after)", k)
 	}
